@@ -13,7 +13,7 @@ FUNCTIONS = ["gcmpy.message_passing.equations.automated_equation.AutomatedEquati
 STUBS = []
 BOUNDS = {
     "quick": "every connected graph on 2..5 vertices (networkx atlas, 30 graphs, vertices relabelled non-contiguously) x "
-             "every focal vertex; cycles C6..C8, K6 at one focal vertex; phi and all u_v unconstrained reals (identity of "
+             "every focal vertex; every connected 6-vertex graph with <= 9 edges at two focal vertices; cycles C6..C8, K6 at one focal vertex; phi and all u_v unconstrained reals (identity of "
              "polynomials); call histories of length 2 over a pool of 3 named motifs with fresh symbols per call",
     "thorough": "every connected graph on 2..6 vertices (142 graphs) x every focal vertex; cycles to C10; histories of "
                 "length 3 over a pool of 4 named motifs",
@@ -60,6 +60,14 @@ def configs(tier):
         for root in sorted(lab.values()):
             cfgs.append({"name": f"atlas{gi}-n{g.number_of_nodes()}m{g.number_of_edges()}-root{root}", "kind": "single",
                          "edges": edges, "root": root, "gname": f"g{gi}"})
+    if tier == "quick":
+        for gi, g in enumerate(_atlas(6)):
+            if g.number_of_nodes() == 6 and g.number_of_edges() <= 9:
+                lab = _relabel(6)
+                edges = [(lab[a], lab[b]) for a, b in g.edges()]
+                roots = sorted(lab.values())
+                for root in (roots[gi % 6], roots[(gi + 3) % 6]):
+                    cfgs.append({"name": f"atlas{gi}-n6m{g.number_of_edges()}-root{root}", "kind": "single", "edges": edges, "root": root, "gname": f"g{gi}"})
     for n in range(6, 9 if tier == "quick" else 11):
         edges = [(i, (i + 1) % n) for i in range(n)]
         cfgs.append({"name": f"cycle{n}-root0", "kind": "single", "edges": edges, "root": 0, "gname": f"c{n}"})
